@@ -291,16 +291,24 @@ class CallLog:
 
 
 class Recorder:
-    """The user objective of one level: pure function + call log."""
+    """The user objective of one level: pure function + call log. With array_memo=True it behaves like a memoising
+    user objective that returns (and keeps) 0-d ndarray objects: whoever modifies a returned value in place corrupts
+    the objective's own table and every individual holding that object."""
 
-    def __init__(self, f, level, log: CallLog):
+    def __init__(self, f, level, log: CallLog, array_memo=False):
         self.f = f
         self.level = level
         self.log = log
+        self.table = {} if array_memo else None
 
     def __call__(self, x):
         v = self.f(x)
         self.log.record(self.level, x, v)
+        if self.table is not None:
+            k = np.asarray(x, dtype=float).tobytes()
+            if k not in self.table:
+                self.table[k] = np.array(v, dtype=float)
+            return self.table[k]
         return v
 
     def __deepcopy__(self, memo):
@@ -760,7 +768,7 @@ class World:
             else:
                 f = make_objective(d["obj"], self.box, self.maximize, shift)
             self.pure.append(make_objective(d["obj"], self.box, self.maximize, shift))
-            p = FunctionProblem(Recorder(f, i, self.log), bounds=self.box.copy(), maximize=self.maximize, **({"use_cache": True} if d.get("use_cache") else {}))
+            p = FunctionProblem(Recorder(f, i, self.log, array_memo=bool(d.get("array_memo"))), bounds=self.box.copy(), maximize=self.maximize, **({"use_cache": True} if d.get("use_cache") else {}))
             cut = None
             if d["cutoff"] is not None:
                 c = d["cutoff"][i] if isinstance(d["cutoff"], (list, tuple)) else d["cutoff"]
